@@ -7,6 +7,7 @@ Open Scope N_scope.
 
 Definition EUnknownFamily := 20. Definition ENoAllocatable := 21. Definition EImpossible := 22.
 Definition EFailedAlloc := 23. Definition EDisagree := 24. Definition ENonPhysical := 25. Definition ENoFrameBP := 26.
+Definition ENotGP := 27.
 Definition EOutOfFuel := 99.
 Definition PNilAllocator := 2. Definition PNotGP := 4. Definition PSelfMoveIndex := 3.
 
@@ -91,8 +92,7 @@ Definition interfere1 (asx : ALLOCS) (liveout : MS) (d : reg) : res ALLOCS :=
   let k := reg_kind d in
   let out := ms_discard (ms_of_kind liveout k) (rid d) (rmask d) in
   match asx !! k with
-  | None => (* method call on a nil *Allocator: it only dereferences when some entry overlaps *)
-      if existsb (fun e => negb (N.land (rmask d) (snd e) =? 0)) (map_to_list out) then Panic PNilAllocator else OK asx
+  | None => OK asx   (* no operand of this kind: nothing to allocate (since "fix: no nil allocator ...") *)
   | Some a => OK (<[k := a_add_interference_set a d (map_to_list out)]> asx)
   end.
 Fixpoint interfere (asx : ALLOCS) (l : list (instr * MS)) : res ALLOCS :=
@@ -147,7 +147,7 @@ Definition is_r32 (o : operand) : bool :=
 Definition zero_extend_op (rf : regfile) (o : operand) : res operand :=
   match o with
   | OReg r => if is_r32 o then
-                if reg_is_virtual r then (if rtag r =? 1 then OK (OReg {| rid := rid r; rmask := 15; rtag := rtag r |}) else Panic PNotGP)
+                if reg_is_virtual r then (if rtag r =? 1 then OK (OReg {| rid := rid r; rmask := 15; rtag := rtag r |}) else Err ENotGP)
                 else match family_lookup rf KindGP (id_index (rid r)) 15 with
                      | Some p => OK (OReg (reg_of_preg_wrapped p)) | None => Panic PNotGP end
               else OK o
